@@ -95,7 +95,10 @@ def run(ctx):
             tss = [rng.choice(TS_EDGE) if rng.random() < 0.3 else rng.randrange(0, TS_LIMIT) for _ in range(k)]
             # the writer is opened either with the libpcap number or the documented way, DataLinkType<Class>()
             how = rng.choice([str(dlt), 'IP' if dlt == 12 else frames[0][0]])
-            lines = ['wopen %s' % how] + ['wpkt %d %d %s' % (dlt, t, hx(b)) for (e, b), t in zip(frames, tss)] + ['wclose', 'read 1', 'read 0']
+            if dlt == 1 and rng.random() < 0.6:
+                # Ethernet captures: some packets are built through the API and written without ever having been serialized
+                frames = [(('API', None) if rng.random() < 0.4 else f) for f in frames]
+            lines = ['wopen %s' % how] + [('wapi %d %d' % (t, rng.choice([0, 10, 100, 1000])) if b is None else 'wpkt %d %d %s' % (dlt, t, hx(b))) for (e, b), t in zip(frames, tss)] + ['wclose', 'read 1', 'read 0']
             sid = 'w%d' % n
             n += 1
             scripts.append((sid, lines))
@@ -126,7 +129,16 @@ def run(ctx):
         if hdr[0] != 0xa1b2c3d4 or hdr[4] != FILE_LINKTYPE[dlt] or not whole or len(recs) != len(frames):
             report('capture file written for link type %d: header %s, %d records for %d packets' % (dlt, hdr, len(recs), len(frames)), lines, lh)
             continue
+        wl = [l.split() for l in lh if l.startswith('W ')]
         for i, ((e, b), t, rec) in enumerate(zip(frames, tss, recs)):
+            if i < len(wl) and int(wl[i][1]) != len(rec[4]):
+                report('record %d: the packet written has size() %s, the record holds %d octets' % (i, wl[i][1], len(rec[4])), lines, lh)
+                break
+            if b is None:
+                b = bytes.fromhex(wl[i][2][1:]) if i < len(wl) and len(wl[i]) > 2 else b''
+                if rec[4] != b:
+                    report('record %d: an API-built packet written without prior serialize() is stored as %s..., its serialization is %s...' % (i, rec[4].hex()[:60], b.hex()[:60]), lines, lh)
+                    break
             if (rec[0], rec[1]) != (t // 1000000, t % 1000000):
                 report('record %d: timestamp fields %s for a packet stamped %d us' % (i, rec[:2], t), lines, lh)
                 break
